@@ -450,6 +450,30 @@ func cmdCheck(args []string) {
 		lines = append(lines, line)
 	}
 
+	// thorough tier: bounded stand-ins (input search on the real code with an
+	// independent oracle) for the property's functions that have a driver.  Labelled
+	// bounded; never counted as discharged; a failing input found is a violation.
+	var standIns []map[string]any
+	if tier == "thorough" {
+		var fnNames []string
+		for _, g := range gens {
+			fnNames = append(fnNames, g.fnName)
+		}
+		res, found := boundedStandIns(repo, verifDir, fnNames, seed, 30)
+		standIns = res
+		for _, rep := range found {
+			name := fmt.Sprintf("%v#bounded:%v", rep["function"], rep["driver"])
+			path := filepath.Join(replayDir, sanitize(name)+".json")
+			os.MkdirAll(replayDir, 0o755)
+			rec := map[string]any{"property": prop, "obligation": name, "kind": "bounded-stand-in", "clause": rep["clause"],
+				"replay": map[string]any{"attempted": true, "found": true, "driver": rep["driver"], "failing_input": rep["input"], "input_json": rep["input_json"], "observed": rep["observed"], "expected": rep["expected"]}}
+			b, _ := json.MarshalIndent(rec, "", " ")
+			os.WriteFile(path, b, 0o644)
+			violations++
+			lines = append(lines, fmt.Sprintf("VIOLATION property=%s replay=%s", prop, path))
+		}
+	}
+
 	// evidence
 	var assumptions []string
 	assumptions = append(assumptions, ps.Assumptions...)
@@ -503,6 +527,7 @@ func cmdCheck(args []string) {
 		"explanation":  ps.Explanation,
 		"residual_not_decided": ps.Residual,
 		"contract_files": e.contractFiles,
+		"bounded_stand_ins": standIns,
 		"ownership_scans": ownsChecked,
 	}
 	ev := map[string]any{
